@@ -311,6 +311,11 @@ class Authorization(authorization.Authorization):
 
         if _req:
             _leave = ["request", "request_uri"]
+            if _request_param == "request_uri":
+                # The OP verifies the request before it fetches the request object: prompt and
+                # nonce are left where it looks for them when offline_access or an ID token
+                # is asked for
+                _leave.extend(["prompt", "nonce"])
             _leave.extend(req.required_parameters())
             _keys = [k for k in req.keys() if k not in _leave]
             for k in _keys:
